@@ -204,7 +204,7 @@ func snap(v any) string { return fmt.Sprintf("%#v", v) }
 func c16(r *R) {
 	L := 4
 	if thorough {
-		L = 5
+		L = 6
 	}
 	inputs := enum.AllSlices([]int{0, 1, 2}, L)
 	calls := sliceCalls()
